@@ -26,7 +26,7 @@ let server_side (dg : n list) (srvd : n list) (hdr : int) (codec : codec) : stri
   let r = dns_decode_query dg (nat (Stdlib.List.length dg)) in
   match r.dq_q with
   | Some q when z_to_int r.dq_rv > 0 ->
-      let dl = match plain_datalen q.q_name srvd with Some d -> int_of_nat d | None -> -1 in
+      let dl = match query_datalen q.q_name srvd with Some d -> int_of_nat d | None -> -1 in
       let ext =
         if hdr > 0 && dl >= hdr then
           sum_of_bytes (unpack_data codec (nat 65536) (drop hdr (take dl q.q_name)) (nat (dl - hdr)))
@@ -112,7 +112,7 @@ let run_line (line : string) : string =
            (match r.dq_q with
             | Some q when z_to_int r.dq_rv > 0 ->
                 let srvd = bytes_of_hex "742e6578616d706c652e636f6d" in
-                (match plain_datalen q.q_name srvd with
+                (match query_datalen q.q_name srvd with
                  | None -> "0"
                  | Some dl ->
                      let dest = if ios fam = 4 then opt4 dest else None in
